@@ -86,12 +86,12 @@ theorem inv_step (a : Bool) (s : State) (st : Stmt) (h : Wf s) : Wf (step a s st
     | some p => exact inv_execDropSchema s _ _ ifx cascade h
   | createTable r ine orr b =>
     simp only [step]
-    cases planBody s b with
-    | error e => exact h
-    | ok pr =>
-      cases resolveRef r with
-      | none => exact h
-      | some k => exact inv_execCreateTable a s _ ine orr _ _ h
+    cases resolveRef r with
+    | none => exact h
+    | some k =>
+      cases planBody s b with
+      | error e => exact h
+      | ok pr => exact inv_execCreateTable a s _ ine orr _ _ h
   | createView r orr q text =>
     simp only [step]
     cases planQuery s q with
@@ -217,11 +217,11 @@ theorem table_stmt_touches_only_named (a : Bool) (s : State) (st : Stmt) (r : Li
       · split <;> exact same
     · split <;> exact same
   rcases hst with ⟨ine, orr, b, rfl⟩ | ⟨orr, q, t, rfl⟩ | ⟨ifx, rfl⟩ | ⟨ifx, rfl⟩
-  · simp only [step]
+  · simp only [step, hk]
     cases planBody s b with
     | error e => exact same
     | ok pr =>
-      simp only [hk, execCreateTable]
+      simp only [execCreateTable]
       split
       · exact same
       · split
@@ -283,16 +283,16 @@ theorem create_if_not_exists_idempotent (a : Bool) (s : State) (st : Stmt)
     cases ine <;> cases orr <;> simp only [isCreateIfNotExists] at hst
     all_goals first | exact absurd hst (by decide) | skip
     simp only [step] at hok ⊢
-    -- planning succeeded …
-    cases hp : planBody s b with
-    | error e => simp [hp, Outcome.isErr] at hok
-    | ok pr =>
-      obtain ⟨cols, runs⟩ := pr
-      simp only [hp] at hok ⊢
-      cases hr : resolveRef r with
-      | none => simp [hr, Outcome.isErr] at hok
-      | some k =>
-        simp only [hr] at hok ⊢
+    -- the name is well-formed and planning succeeded …
+    cases hr : resolveRef r with
+    | none => simp [hr, Outcome.isErr] at hok
+    | some k =>
+      simp only [hr] at hok ⊢
+      cases hp : planBody s b with
+      | error e => simp [hp, Outcome.isErr] at hok
+      | ok pr =>
+        obtain ⟨cols, runs⟩ := pr
+        simp only [hp] at hok ⊢
         cases hl : lookup s k with
         | some e0 =>
           -- already there: skipped, state unchanged, and again
@@ -416,13 +416,13 @@ theorem or_replace_eq_drop_create (s : State) (r : List Ident) (b : TBody) (k : 
   rw [hdrop]
   refine ⟨rfl, ?_, ?_⟩
   all_goals
-    simp only [step, hpl (removeObj s k)]
+    simp only [step, hk, hpl (removeObj s k)]
     cases hp : planBody s b with
     | error e' => cases b with
       | cols cs => simp [planBody] at hp
       | as q => cases q <;> simp [planBody, planQuery, bodyClosed] at hp hb
     | ok pr =>
-      simp only [hk, execCreateTable, he, lookup_removeObj_self, Bool.false_and,
+      simp only [execCreateTable, he, lookup_removeObj_self, Bool.false_and,
         Bool.false_eq_true, if_false]
       try (cases (createFresh (removeObj s k) ⟨k, .base, pr.1, none, true⟩ pr.2).2 <;> rfl)
 
@@ -571,14 +571,14 @@ theorem failed_stmt_changes_nothing_repaired : failed_stmt_changes_nothing_state
   refine failed_stmt_aux true s st hw ?_ h
   rintro r ine orr b rfl
   simp only [step] at h ⊢
-  cases hp : planBody s b with
-  | error e => rfl
-  | ok pr =>
-    simp only [hp] at h ⊢
-    cases hr : resolveRef r with
-    | none => rfl
-    | some k =>
-      simp only [hr] at h ⊢
+  cases hr : resolveRef r with
+  | none => rfl
+  | some k =>
+    simp only [hr] at h ⊢
+    cases hp : planBody s b with
+    | error e => rfl
+    | ok pr =>
+      simp only [hp] at h ⊢
       exact execCreateTable_err_repaired s k ine orr _ _ hw h
 
 def isOrReplaceTable : Stmt → Bool
@@ -593,14 +593,14 @@ theorem failed_stmt_changes_nothing_partial (s : State) (st : Stmt) (hw : Wf s)
   cases st with
   | createTable r ine orr b =>
     simp only [step] at h ⊢
-    cases hp : planBody s b with
-    | error e => rfl
-    | ok pr =>
-      simp only [hp] at h ⊢
-      cases hr : resolveRef r with
-      | none => rfl
-      | some k =>
-        simp only [hr, execCreateTable] at h ⊢
+    cases hr : resolveRef r with
+    | none => rfl
+    | some k =>
+      simp only [hr] at h ⊢
+      cases hp : planBody s b with
+      | error e => rfl
+      | ok pr =>
+        simp only [hp, execCreateTable] at h ⊢
         split
         · rfl
         · simp [isOrReplaceTable] at hst
@@ -789,6 +789,75 @@ theorem info_schema_lists_exactly_state (a : Bool) (sts : List Stmt) (k : Key)
 example :
     let s : State := { cats := [defaultCat], schemas := [], objs := [⟨⟨defaultCat, defaultSch, ['t']⟩, .base, [], none, true⟩] }
     infoTables s = infoNames.map (fun n => (⟨defaultCat, infoSch, n⟩, Kind.view)) := by decide
+
+/-! ### … and exactly once -/
+
+theorem nodup_flatMap' {α β} {l : List α} {f : α → List β} (hl : l.Nodup)
+    (h1 : ∀ a ∈ l, (f a).Nodup)
+    (h2 : ∀ a ∈ l, ∀ b ∈ l, a ≠ b → ∀ x ∈ f a, ∀ y ∈ f b, x ≠ y) : (l.flatMap f).Nodup := by
+  rw [List.Nodup, List.pairwise_flatMap]
+  refine ⟨h1, ?_⟩
+  have : List.Pairwise (fun a b => a ≠ b) l := hl
+  exact List.Pairwise.imp_of_mem (fun {a b} ha hb hab => h2 a ha b hb hab) this
+
+theorem nodup_map_of_inj {α β} {l : List α} (f : α → β) (hl : l.Nodup)
+    (hinj : ∀ a ∈ l, ∀ b ∈ l, f a = f b → a = b) : (l.map f).Nodup := by
+  induction l with
+  | nil => simp
+  | cons x xs ih =>
+    simp only [List.nodup_cons] at hl
+    simp only [List.map_cons, List.nodup_cons, List.mem_map, not_exists, not_and]
+    refine ⟨?_, ih hl.2 (fun a ha b hb => hinj a (List.mem_cons_of_mem _ ha) b (List.mem_cons_of_mem _ hb))⟩
+    intro y hy hxy
+    have := hinj y (List.mem_cons_of_mem _ hy) x (List.mem_cons_self) hxy
+    subst this
+    exact hl.1 hy
+
+/-- every key appears at most once in `information_schema.tables`: no object is listed twice -/
+theorem infoTables_keys_nodup (s : State) (hw : Wf s) : ((infoTables s).map (·.1)).Nodup := by
+  simp only [infoTables, List.map_flatMap, List.map_append, List.map_map]
+  refine nodup_flatMap' hw.cats_nodup ?_ ?_
+  · intro c hc
+    rw [List.nodup_append]
+    refine ⟨?_, ?_, ?_⟩
+    · -- user rows of catalog c
+      refine nodup_flatMap' ?_ ?_ ?_
+      · -- schema names of c are distinct
+        have : (schemasOf s c).Nodup := by
+          simp only [schemasOf]
+          refine nodup_map_of_inj _ (List.Nodup.sublist List.filter_sublist hw.schemas_nodup) ?_
+          intro a ha b hb hab
+          simp only [List.mem_filter, decide_eq_true_eq] at ha hb
+          exact Prod.ext (ha.2.trans hb.2.symm) hab
+        exact List.Nodup.sublist List.filter_sublist this
+      · intro sc _
+        have : ((objsOf s c sc).map (·.key)).Nodup := nodup_map_filter _ _ hw.keys_nodup
+        simpa [Function.comp_def] using this
+      · intro a _ b _ hab x hx y hy
+        simp only [List.mem_map, Function.comp_apply, mem_objsOf] at hx hy
+        obtain ⟨e1, ⟨_, _, h1⟩, rfl⟩ := hx
+        obtain ⟨e2, ⟨_, _, h2⟩, rfl⟩ := hy
+        intro h
+        exact hab (h1.symm.trans ((congrArg Key.sch h).trans h2))
+    · refine nodup_map_of_inj _ (by decide) ?_
+      intro a _ b _ h
+      simpa using h
+    · intro x hx y hy
+      simp only [List.mem_flatMap, List.mem_map, Function.comp_apply, mem_objsOf, mem_userSchemasOf] at hx hy
+      obtain ⟨sc, ⟨_, hne⟩, e, ⟨_, _, hes⟩, rfl⟩ := hx
+      obtain ⟨n, _, rfl⟩ := hy
+      intro h
+      exact hne (hes.symm.trans (congrArg Key.sch h))
+  · intro a _ b _ hab x hx y hy
+    have cat_of : ∀ c z, z ∈ ((userSchemasOf s c).flatMap fun sc => (objsOf s c sc).map ((fun p : Key × Kind => p.1) ∘ fun e => (e.key, e.kind)))
+        ++ infoNames.map ((fun p : Key × Kind => p.1) ∘ fun n => ((⟨c, infoSch, n⟩ : Key), Kind.view)) → z.cat = c := by
+      intro c z hz
+      simp only [List.mem_append, List.mem_flatMap, List.mem_map, Function.comp_apply, mem_objsOf] at hz
+      rcases hz with ⟨sc, _, e, ⟨_, hc, _⟩, rfl⟩ | ⟨n, _, rfl⟩
+      · exact hc
+      · rfl
+    intro h
+    exact hab ((cat_of a x hx).symm.trans ((congrArg Key.cat h).trans (cat_of b y hy)))
 
 /-! ## 7. Non-vacuity: one history exercising every statement kind, quoting, qualification,
        IF [NOT] EXISTS, OR REPLACE, CASCADE, views over tables, and failures -/
